@@ -149,10 +149,38 @@ func (zcn *ZCNSmartContract) mint(trans *transaction.Transaction, inputData []by
 		share  currency.Coin
 	)
 
+	// pick the authorizer that earns the fee
+	sortedSigs := make([]*AuthorizerSignature, len(payload.Signatures))
+	copy(sortedSigs, payload.Signatures)
+	sort.Slice(sortedSigs, func(i, j int) bool {
+		return sortedSigs[i].ID < sortedSigs[j].ID
+	})
+
+	rd := rand.New(rand.NewSource(randomSeed))
+	sig := sortedSigs[rd.Intn(len(payload.Signatures))]
+	logging.Logger.Debug("mint reward", zap.String("authorizer", sig.ID), zap.Int64("seed", randomSeed))
+
+	sp, err := zcn.getStakePool(sig.ID, ctx)
+	if err != nil {
+		err = errors.Wrap(err, fmt.Sprintf("failed to retrieve stake pool for authorizer %s", sig.ID))
+		return
+	}
+
 	share, _, err = currency.DistributeCoin(gn.ZCNSConfig.MaxFee, int64(len(payload.Signatures)))
 	if err != nil {
 		err = errors.Wrap(err, fmt.Sprintf("%s, DistributeCoin operation, %s", code, info))
 		return
+	}
+
+	// DistributeRewards credits nothing to a killed provider or to one staked
+	// below its minimum: the receiver must not be charged a fee nobody gets
+	staked, err := sp.TotalStake()
+	if err != nil {
+		err = errors.Wrap(err, fmt.Sprintf("%s, stake of authorizer %s, %s", code, sig.ID, info))
+		return
+	}
+	if sp.HasBeenKilled || staked < sp.Settings.MinStake {
+		share = 0
 	}
 
 	amount, err = currency.MinusCoin(payload.Amount, share)
@@ -174,23 +202,6 @@ func (zcn *ZCNSmartContract) mint(trans *transaction.Transaction, inputData []by
 		Amount:    payload.Amount,
 		Signers:   signers,
 	})
-
-	// sort the signatures
-	sortedSigs := make([]*AuthorizerSignature, len(payload.Signatures))
-	copy(sortedSigs, payload.Signatures)
-	sort.Slice(sortedSigs, func(i, j int) bool {
-		return sortedSigs[i].ID < sortedSigs[j].ID
-	})
-
-	rd := rand.New(rand.NewSource(randomSeed))
-	sig := sortedSigs[rd.Intn(len(payload.Signatures))]
-	logging.Logger.Debug("mint reward", zap.String("authorizer", sig.ID), zap.Int64("seed", randomSeed))
-
-	sp, err := zcn.getStakePool(sig.ID, ctx)
-	if err != nil {
-		err = errors.Wrap(err, fmt.Sprintf("failed to retrieve stake pool for authorizer %s", sig.ID))
-		return
-	}
 
 	err = sp.DistributeRewards(share, sig.ID, spenum.Authorizer, spenum.FeeRewardAuthorizer, ctx)
 	if err != nil {
